@@ -24,6 +24,8 @@ pub fn standard_files() -> Vec<FileSpec> {
         reg("noext", b"k: v\nlist: [1, 2]\n"),
         reg("empty.json", b""),
         reg("MIXED.YmL", b"x: 1\n"),
+        // a file name that is not valid UTF-8 (the marker stands for the byte 0xE9)
+        FileSpec { name: format!("caf{}.json", NON_UTF8_MARK), kind: FileKind::Regular(b"[\"latin1 name\"]".to_vec()) },
         FileSpec { name: "pipe.json".into(), kind: FileKind::Fifo(b"[1,2,3]".to_vec()) },
         FileSpec { name: "dir".into(), kind: FileKind::Dir },
         FileSpec { name: "missing.json".into(), kind: FileKind::Missing },
@@ -31,6 +33,15 @@ pub fn standard_files() -> Vec<FileSpec> {
 }
 
 pub fn vocabulary() -> Vec<&'static str> {
+    // leaked once: the vocabulary is static for the life of the process
+    static NONUTF8: std::sync::OnceLock<&'static str> = std::sync::OnceLock::new();
+    let nonutf8: &'static str = NONUTF8.get_or_init(|| Box::leak(format!("caf{}.json", NON_UTF8_MARK).into_boxed_str()));
+    let mut v = vocabulary_base();
+    v.push(nonutf8);
+    v
+}
+
+fn vocabulary_base() -> Vec<&'static str> {
     vec![
         "-f", "-t", "-fjson", "-fj", "-f=yaml", "-fy", "-fm", "-ft", "-ftoml", "-tm", "-tmsgpack", "-t=toml", "-tt", "-ty", "-tyaml", "-tj", "json", "j", "yaml", "toml", "m", "xml", "JSON", "-fxml", "-t=", "-x",
         "--foo", "--format=json", "-h", "--help", "-V", "--version", "--", "-", "good.json", "good.yaml", "good.toml", "good.msgpack", "bad.json", "undetectable.txt", "nullroot.json", "noext", "empty.json",
@@ -74,7 +85,7 @@ pub fn run_invocation(inv: &Invocation, rec: &mut Recorder) -> Result<(), String
 fn random_invocation() -> BoxedStrategy<Invocation> {
     let vocab = vocabulary();
     (proptest::collection::vec(proptest::sample::select(vocab), 0..8), 0u64..4, prop_oneof![4 => Just(OutKind::Pipe), 2 => Just(OutKind::File), 2 => Just(OutKind::Pty)], any::<bool>())
-        .prop_map(|(args, s, out, dbg)| Invocation { args: args.into_iter().map(String::from).collect(), files: standard_files(), stdin: stdin_for(s), out, bin: if dbg { Bin::Debug } else { Bin::Release } })
+        .prop_map(|(args, s, out, dbg)| Invocation { args: args.into_iter().map(String::from).collect(), files: standard_files(), stdin: stdin_for(s), out, bin: if dbg { Bin::Debug } else { Bin::Release }, stdin_file_offset: None })
         .boxed()
 }
 
@@ -86,7 +97,7 @@ impl Check for C13 {
         "exploration"
     }
     fn rule(&self) -> String {
-        "The real binaries (debug and release, hooks off) are run on argument vectors over the vocabulary {-f/-t with every name and alias attached, detached and with '='; repeats; missing values; invalid names; unknown short and long options; -h --help -V --version; '--'; '-'; existing / malformed / undetectable / unrepresentable / empty / FIFO / directory / missing paths}: ALL vectors up to length 2 (quick) or 3 (thorough) in unit 'enumerate' with stdout a pipe, plus random vectors up to length 7 with stdout a pipe, a file or a pseudo-terminal. Oracle: a reference model of the command line written from the manual (left-to-right processing; help/version first => exit 0, stdout only; invalid => exit 2, stdout empty, stderr starts with 'xt error' and carries the usage summary; otherwise exit 0 iff every input translates in the in-process library, else 1 with an 'xt error' line naming the offending input; stdout carries exactly / at least the library's bytes; MessagePack to a terminal => exit 1, nothing written). One evaluation = one process run; non-trivial = non-empty argv; distinct by hash of the invocation.".into()
+        "The real binaries (debug and release, hooks off) are run on argument vectors over the vocabulary {-f/-t with every name and alias attached, detached and with '='; repeats; missing values; invalid names; unknown short and long options; -h --help -V --version; '--'; '-'; existing / malformed / undetectable / unrepresentable / empty / FIFO / directory / missing paths}: ALL vectors up to length 2 (quick) or 3 (thorough) in unit 'enumerate' with stdout a pipe, plus random vectors up to length 7 with stdout a pipe, a file or a pseudo-terminal. Oracle: a reference model of the command line written from the manual (left-to-right processing; help/version first => exit 0, stdout only; invalid => exit 2, stdout empty, stderr starts with 'xt error' and carries the usage summary; otherwise exit 0 iff every input translates in the in-process library, else 1 with an 'xt error' line naming the offending input; stdout carries exactly / at least the library's bytes; MessagePack to a terminal => exit 1, nothing written). Unit 'unwritable': failing, invalid, help and version invocations with standard error (or, for help/version and early failures, standard output) on /dev/full or a closed pipe must still end with the exit status of the model, never with a signal. One evaluation = one process run; non-trivial = non-empty argv; distinct by hash of the invocation.".into()
     }
     fn assumptions(&self) -> Vec<String> {
         vec![
@@ -98,10 +109,10 @@ impl Check for C13 {
         true
     }
     fn units(&self, tier: Tier) -> Vec<Unit> {
-        vec![Unit::enumerate("enumerate", 16), Unit::enumerate("pty", 4), Unit::gen("random", 16, tier.pick(600, 5000))]
+        vec![Unit::enumerate("enumerate", 16), Unit::enumerate("pty", 4), Unit::enumerate("unwritable", 4), Unit::gen("random", 16, tier.pick(600, 5000))]
     }
     fn required_classes(&self, _tier: Tier) -> Vec<&'static str> {
-        vec!["outcome:info", "outcome:usage", "outcome:ok", "outcome:failed", "outcome:tty_refused", "stdout:Pipe", "stdout:File", "stdout:Pty"]
+        vec!["outcome:info", "outcome:usage", "outcome:ok", "outcome:failed", "outcome:tty_refused", "stdout:Pipe", "stdout:File", "stdout:Pty", "unwritable_stream"]
     }
     fn run_unit(&self, unit: &Unit, shard: u32, seed: u64, tier: Tier, rec: &mut Recorder) {
         match unit.name {
@@ -122,7 +133,7 @@ impl Check for C13 {
                             args.push(vocab[(x % n) as usize].to_string());
                             x /= n;
                         }
-                        let inv = Invocation { args, files: standard_files(), stdin: stdin_for(index), out: OutKind::Pipe, bin: if index % 2 == 0 { Bin::Debug } else { Bin::Release } };
+                        let inv = Invocation { args, files: standard_files(), stdin: stdin_for(index), out: OutKind::Pipe, bin: if index % 2 == 0 { Bin::Debug } else { Bin::Release }, stdin_file_offset: None };
                         if rec.tracing() {
                             rec.trace_case(|| inv.to_json("enumerate"));
                         }
@@ -149,10 +160,80 @@ impl Check for C13 {
                             args.push(vocab[(x % n) as usize].to_string());
                             x /= n;
                         }
-                        let inv = Invocation { args, files: standard_files(), stdin: stdin_for(index), out: OutKind::Pty, bin: if index % 2 == 0 { Bin::Debug } else { Bin::Release } };
+                        let inv = Invocation { args, files: standard_files(), stdin: stdin_for(index), out: OutKind::Pty, bin: if index % 2 == 0 { Bin::Debug } else { Bin::Release }, stdin_file_offset: None };
                         if let Err(m) = run_invocation(&inv, rec) {
                             rec.fail(m, inv.to_json("pty"));
                             return;
+                        }
+                    }
+                }
+            }
+            "unwritable" => {
+                // exit status must not depend on whether the message / help text could
+                // be written: standard error on a full device or a closed pipe for
+                // failing and invalid invocations, standard output on a full device or a
+                // closed pipe for help and version
+                use crate::cli::{run_xt_full, Scratch, StderrSpec, StdinSpec, StdoutSpec};
+                let cases: Vec<(Vec<&str>, i32)> = vec![
+                    (vec!["missing.json"], 1),
+                    (vec!["bad.json"], 1),
+                    (vec!["undetectable.txt"], 1),
+                    (vec!["-ttoml", "nullroot.json"], 1),
+                    (vec!["good.json", "-", "-"], 1),
+                    (vec!["-ttoml", "good.json", "good.yaml"], 1),
+                    (vec!["dir"], 1),
+                    (vec!["-x"], 2),
+                    (vec!["-f"], 2),
+                    (vec!["-fxml"], 2),
+                    (vec!["-tj", "-tj"], 2),
+                    (vec!["--foo"], 2),
+                    (vec!["-h"], 0),
+                    (vec!["--help"], 0),
+                    (vec!["-V"], 0),
+                    (vec!["--version"], 0),
+                    (vec!["good.json"], 0),
+                ];
+                let mut n = 0u32;
+                for (args, want) in &cases {
+                    for stderr in [StderrSpec::DevFull, StderrSpec::ClosedPipe, StderrSpec::Pipe] {
+                        for (oi, stdout) in [StdoutSpec::Pipe, StdoutSpec::DevFull, StdoutSpec::ClosingPipe { after: 0, pipe_size: None }].into_iter().enumerate() {
+                            for bin in [Bin::Debug, Bin::Release] {
+                                n += 1;
+                                if n % unit.shards != shard {
+                                    continue;
+                                }
+                                // an unwritable stdout changes the outcome of a run that
+                                // translates (C16); here it is only combined with help/version
+                                // and with runs that fail before producing output
+                                let produces_output = *want == 0 && !args[0].starts_with('-') || args.contains(&"good.json");
+                                if oi > 0 && produces_output {
+                                    continue;
+                                }
+                                let sc = Scratch::new("c13u");
+                                for f in standard_files() {
+                                    match &f.kind {
+                                        FileKind::Regular(b) => {
+                                            sc.file(&f.name, b);
+                                        }
+                                        FileKind::Dir => {
+                                            let _ = std::fs::create_dir_all(sc.dir.join(&f.name));
+                                        }
+                                        _ => {}
+                                    }
+                                }
+                                let os: Vec<std::ffi::OsString> = args.iter().map(std::ffi::OsString::from).collect();
+                                let res = run_xt_full(bin, &os, &sc.dir, StdinSpec::Bytes(b"{}".to_vec()), stdout.clone(), stderr, vec![], 60);
+                                let cj = json!({"unit": "unwritable", "args": args, "stderr": format!("{:?}", stderr), "stdout": format!("{:?}", stdout), "bin": bin.name(), "want": want});
+                                if res.code != Some(*want) {
+                                    rec.fail(
+                                        format!("xt {:?} with stderr {:?} and stdout {:?} [{}]: expected exit {}, got {}", args, stderr, stdout, bin.name(), want, res.brief()),
+                                        cj,
+                                    );
+                                    return;
+                                }
+                                rec.count(Some(hash_of(&cj.to_string())));
+                                rec.class("unwritable_stream");
+                            }
                         }
                     }
                 }
@@ -162,6 +243,9 @@ impl Check for C13 {
         }
     }
     fn replay(&self, case: &J) -> Result<(), String> {
+        if case["unit"].as_str() == Some("unwritable") {
+            return Err("re-run ./check C13 quick (the unwritable unit is a fixed enumeration)".into());
+        }
         run_invocation(&Invocation::from_json(case).ok_or("bad invocation")?, &mut Recorder::default())
     }
 }
